@@ -159,9 +159,19 @@ func (t *decTr) stmt(s ast.Stmt) string {
 		}
 	case *ast.RangeStmt:
 		// for _, v := range l { body }
-		if k, ok := x.Key.(*ast.Ident); ok && k.Name == "_" && x.Tok == token.DEFINE {
+		if k, ok := x.Key.(*ast.Ident); ok && x.Tok == token.DEFINE {
 			if v, ok := x.Value.(*ast.Ident); ok {
-				return "DRange " + q(v.Name) + " " + q(t.render(x.X)) + " " + t.stmts(x.Body.List)
+				body := t.stmts(x.Body.List)
+				if k.Name != "_" {
+					// for i, v := range l: the key is bound to "index of v" at the head of the body
+					bind := "DAssign " + q(k.Name) + " " + q("index of "+v.Name)
+					if body == "[]" {
+						body = "[" + bind + "]"
+					} else {
+						body = "[" + bind + "; " + body[1:]
+					}
+				}
+				return "DRange " + q(v.Name) + " " + q(t.render(x.X)) + " " + body
 			}
 		}
 	case *ast.ExprStmt:
